@@ -57,7 +57,9 @@ func c14Program(model *Model, r *Result, src string, maxK int, cfg Config) {
 	}
 	full := base.Phases[0].Trace
 	for _, k := range ks {
-		o := SemOpts{StopAt: k, YieldBudget: 4000, Input: []string{"in1", "in2"}}
+		// the stop runs get a larger yield budget than the base run, so that a stop at the base run's last yields
+		// (a program that exhausts the budget) is never confused with the budget cut-off itself
+		o := SemOpts{StopAt: k, YieldBudget: 8000, Input: []string{"in1", "in2"}}
 		d := semCase(model, r, src, o, true, "")
 		if len(d.Impl.Phases) == 0 {
 			continue
@@ -132,7 +134,7 @@ func runC14(cfg Config, r *Result) {
 	r.Rule = "for each program (fixed templates incl. endless loops and recursion, then random typed programs with functions/loops/tests/effects) the run is stopped at EVERY yield index k (all k when the run has <= cap yields, else the first cap/2 and random others): implementation vs model (outcome, trace, yield count, globals) and the property oracle on the implementation (ErrStopped, no yield after the raise, no effect after the raise, trace prefix of the uninterrupted run); distinct = distinct (program,k); every case is non-trivial (a stop is injected)"
 	if in, ok := replayInput(cfg); ok {
 		k := int(in["stop_at"].(float64))
-		semCase(model, r, in["program"].(string), SemOpts{StopAt: k, YieldBudget: 4000, Input: []string{"in1", "in2"}}, true, "")
+		semCase(model, r, in["program"].(string), SemOpts{StopAt: k, YieldBudget: 8000, Input: []string{"in1", "in2"}}, true, "")
 		c14EffectsAfterStop(r, in["program"].(string), k)
 		return
 	}
